@@ -338,6 +338,32 @@ def run_parser(case, ctx):
                   lambda: f"parsed {getattr(got, c)!r} expected {getattr(exp, c)!r}\ntext: {text!r}")
 
 
+# ------------------------------------------------------------------ many rows (text written / parsed in blocks)
+def enum_rows(tier, seed):
+    for k in ([4100, 8200] if tier == "quick" else [4095, 4096, 4097, 4100, 8192, 8200, 20000]):
+        yield dict(k=k)
+
+
+def run_rows(case, ctx):
+    """Every table with thousands of rows (more than 4096 / 8192): star tree with k leaves, one site and one
+    mutation per leaf, one individual per leaf, a few populations and migrations."""
+    k = case["k"]
+    npop = 3
+    nodes = [[1, 0.0, u % npop, u, "n%d" % (u % 7)] for u in range(k)] + [[0, 1.0, -1, -1, ""]]
+    edges = [[0.0, float(k), k, u, ""] for u in range(k)]
+    sites = [[float(u), "ACGT"[u % 4], "s" if u % 5 == 0 else ""] for u in range(k)]
+    muts = [[u, u, "TGCA"[u % 4], -1, (0.5 if u % 2 == 0 else None) if False else None, "m" if u % 3 == 0 else ""]
+            for u in range(k)]
+    inds = [[u % 2, [float(u % 3)] * (u % 3), ([u - 1] if u % 4 == 1 else []), "i%d" % (u % 11)] for u in range(k)]
+    pops = [["p%d" % j] for j in range(npop)]
+    migs = [[0.0, float(k), u, u % npop, (u + 1) % npop, 0.25 + (u % 2) * 0.25, ""] for u in range(0, k, max(1, k // 4200))]
+    migs.sort(key=lambda r: r[5])
+    spec = dict(L=float(k), nodes=nodes, edges=edges, sites=sites, mutations=muts, individuals=inds, populations=pops,
+                migrations=migs)
+    run_text(dict(spec=spec, extra_precision=0, withhold_populations=False, md_redraw=[]), ctx)
+    ctx.nt(True)
+
+
 SUBCHECKS = [
     SubCheck("C17.roundtrip", run_text, strategy=text_case, quick=8000, thorough=240000,
              rule="an individual with empty parents or location, or an empty allele, or known and unknown "
@@ -354,4 +380,6 @@ SUBCHECKS = [
                      "table_nodes": 0.05, "table_edges": 0.05, "table_sites": 0.05, "table_mutations": 0.05,
                      "table_individuals": 0.05, "table_populations": 0.05, "table_migrations": 0.05,
                      "strict_false": 0.03, "empty_field": 0.2}),
+    SubCheck("C17.large_rows", run_rows, enumerate=enum_rows, quick=1, thorough=1, shards=2,
+             rule="tree sequences with 4100 and 8200 (thorough: up to 20000) rows in every table"),
 ]
